@@ -39,3 +39,16 @@ Definition ones (R : nat) : list Z := repeat 1%Z R.
 
 (* impl models at Z *)
 Definition zimpl_ttv_dense := @impl_ttv_dense Z 0%Z Z.add Z.mul.
+
+(* ttensor.reconstruct with index-list samples: mode m of the result reads row sel[m][x] of the full tensor *)
+Fixpoint zsample_idx (sel : list (option (list nat))) (i : idx) : idx :=
+  match sel, i with
+  | o :: sel', x :: i' => (match o with None => x | Some l => nth x l 0%nat end) :: zsample_idx sel' i'
+  | _, _ => []
+  end.
+Definition zsample (sel : list (option (list nat))) (f : idx -> Z) : idx -> Z := fun i => f (zsample_idx sel i).
+
+(* what C02 needs of a sparse observation to read its denotation: one value per stored subscript, all in bounds
+   (explicit zeros / duplicates are C06's subject: sptensor.scale keeps explicit zeros) *)
+Definition sp_okb (S : sparse Z) : bool :=
+  Nat.eqb (length (ssubs S)) (length (svals S)) && forallb (inb (sshape S)) (ssubs S).
